@@ -1,4 +1,5 @@
 import Proofs.Lemmas.SemPasses
+import Proofs.Lemmas.SemLiteral
 /-!
 # C03 — the IR optimizer never changes what a regex matches
 
@@ -169,6 +170,91 @@ theorem run_to_fixpoint_preserves {I : StInv} {inp : Input} {pass : PassFn} (hf 
 /-- The trivial invariant is preserved by every node. -/
 theorem pres_top (inp : Input) (fwd : Bool) (n : Node) : Pres StInv.top inp fwd n := fun _ _ _ _ => trivial
 
+/-! ## `form_literal_bytes` and the whole pipeline (UTF-8 text) -/
+
+/-- Merging adjacent byte sequences (any input, any state): the sequence executed first, then the
+other one, is the concatenation — in text order, i.e. re-reversed inside a look-behind. -/
+theorem byteSeq_merge_sem (inp : Input) (fwd : Bool) (x y : List Nat) (st : St) :
+    sem inp (.cat [.byteSeq x, .byteSeq y]) fwd st =
+      sem inp (.byteSeq (if fwd then x ++ y else y ++ x)) fwd st := by
+  simp only [sem, semCat_cons, semCat, flatMap_singleton']
+  exact sem_byteSeq_seq inp fwd x y st
+
+/-- `Char c ≡ ByteSequence (utf8 c)` at a char boundary of UTF-8 text, in both directions. -/
+theorem char_byteSeq_sem {inp : Input} {cs : List Nat} (ht : Utf8Text inp cs) {c : Nat} (hc : Utf8.isScalar c = true)
+    (fwd : Bool) {st : St} (hb : AtBoundary cs st.pos) :
+    sem inp (.char c) fwd st = sem inp (.byteSeq (Utf8.encode c)) fwd st := char_eq_byteSeq ht hc fwd hb
+
+/-- `CharSet` of ASCII chars `≡ ByteSet` at a char boundary of UTF-8 text. -/
+theorem charSet_byteSet_sem {inp : Input} {cs : List Nat} (ht : Utf8Text inp cs) {chars : List Nat}
+    (hall : chars.all (fun c => decide (c ≤ 0x7F)) = true) (fwd : Bool) {st : St} (hb : AtBoundary cs st.pos) :
+    sem inp (.charSet chars) fwd st = sem inp (.byteSet chars) fwd st := charSet_eq_byteSet ht hall fwd hb
+
+/-- Every well-formed node keeps every offset of the state on char boundaries. -/
+theorem sem_keeps_boundaries {inp : Input} {cs : List Nat} (ht : Utf8Text inp cs) (n : Node) (fwd : Bool)
+    (st s : St) (hw : WF n) (hg : Good cs st) (h : s ∈ sem inp n fwd st) : Good cs s := sem_good ht n fwd st s hw hg h
+
+/-- `form_literal_bytes` (on UTF-8 text, on states whose offsets are char boundaries). -/
+theorem form_literal_bytes_preserves {inp : Input} {cs : List Nat} (ht : Utf8Text inp cs) :
+    PassPreserves (utf8Inv cs) inp formLiteralBytes := formLiteralBytes_ok ht
+
+/-- All seven passes. -/
+theorem passes_preserve {inp : Input} {cs : List Nat} (ht : Utf8Text inp cs) : PassesOK (utf8Inv cs) inp where
+  simplifyBrackets := simplifyBrackets_ok _ ht.inputOK
+  decat := decat_ok _ _
+  unrollLoops := unrollLoops_ok _ _
+  promote1CharLoops := promote1CharLoops_ok _ _
+  formLiteralBytes := formLiteralBytes_ok ht
+  removeEmpties := removeEmpties_ok _ _
+  propagateEarlyFails := propagateEarlyFails_ok _ ht.inputOK
+
+/-- **`optimizer::optimize` preserves the semantics.** If the model of `optimize` turns the
+well-formed IR `r` into `r'`, then `r'` is well-formed, has the same capture groups, and on every
+UTF-8 input, from every state whose offsets are char boundaries, has observationally the same
+successes (travelling forward: the top level of a regex). -/
+theorem optimize_preserves {inp : Input} {cs : List Nat} (ht : Utf8Text inp cs) {fuel : Nat} {r r' : Regex}
+    (h : optimize fuel r = .ok r') (hw : WF r.node) :
+    WF r'.node ∧ numGroups r'.node = numGroups r.node ∧
+      ∀ st, Good cs st → ObsEq (sem inp r.node true st) (sem inp r'.node true st) := by
+  have := optimize_ok (passes_preserve ht) (fun fwd n hwn => pres_utf8 ht fwd n hwn) h hw
+  exact ⟨this.1, this.2.1, fun st hg => this.2.2 st hg⟩
+
+theorem good_initSt (cs : List Nat) (n : Node) {p : Nat} (hb : AtBoundary cs p) : Good cs (initSt n p) := by
+  refine ⟨hb, fun c hc => ?_⟩
+  have : c = (none, none) := List.eq_of_mem_replicate hc
+  subst this
+  exact ⟨fun a ha => (by cases ha), fun b hb => (by cases hb)⟩
+
+/-- **C03.** The optimized IR and the unoptimized IR give the same result of a match attempt at
+every char boundary: same end position, same captures. -/
+theorem optimize_same_attempt {inp : Input} {cs : List Nat} (ht : Utf8Text inp cs) {fuel : Nat} {r r' : Regex}
+    (h : optimize fuel r = .ok r') (hw : WF r.node) {p : Nat} (hb : AtBoundary cs p) :
+    firstMatch inp r'.node p = firstMatch inp r.node p := by
+  obtain ⟨_, hg, heq⟩ := optimize_preserves ht h hw
+  unfold firstMatch
+  have e : initSt r'.node p = initSt r.node p := by simp [initSt, hg]
+  rw [e]
+  exact (heq _ (good_initSt cs r.node hb)).head?.symm
+
+/-- **C03, the search.** … and hence the same leftmost match from every start offset. -/
+theorem optimize_same_match {inp : Input} {cs : List Nat} (ht : Utf8Text inp cs) {fuel : Nat} {r r' : Regex}
+    (h : optimize fuel r = .ok r') (hw : WF r.node) (start : Nat) :
+    semFind inp r'.node start = semFind inp r.node start := by
+  unfold semFind
+  generalize inp.len + 1 - start = k
+  induction k generalizing start with
+  | zero => rfl
+  | succ k ih =>
+    simp only [semFindFrom]
+    split
+    · rfl
+    · rename_i hle
+      split
+      · rename_i hbd
+        have hb : AtBoundary cs start := (atBoundary_iff ht (by omega)).2 hbd
+        rw [optimize_same_attempt ht h hw hb, ih]
+      · exact ih _
+
 /-! ## Non-vacuity -/
 
 /-- `/(?:ab){2,3}/`-like IR: a well-formed loop that `unroll_loops` rewrites. -/
@@ -189,6 +275,25 @@ example : removeEmpties (.alt .empty .empty) (Walk.new false) = .ok .remove := b
 example : promote1CharLoops (.loop (.char 0x61) { min := 0, max := none, greedy := true } 0 0) (Walk.new false) =
     .ok (.modified (.loop1 (.char 0x61) { min := 0, max := none, greedy := true })) := by rfl
 
+/-- `/(?:a|[bc]){2,3}é/`: a well-formed IR with a bracket, a loop to unroll and a non-ASCII literal
+(the model of `optimize` turns it into
+`(cat (cat (alt (bytes 61) (byteset 62 63)) (alt …) (loop 0 1 1 0 0 (alt …))) (bytes c3 a9) (goal))`). -/
+def exRegex : Regex :=
+  { node := .cat [.loop (.alt (.char 0x61) (.bracket ⟨false, [(0x62, 0x63)]⟩)) ⟨2, some 3, true⟩ 0 0, .char 0xE9, .goal],
+    flags := {} }
+
+example : WF exRegex.node := by
+  simp only [exRegex, WF, WFList, quantOk, numGroups, and_true, true_and]
+  refine ⟨by decide, by decide, by decide⟩
+
+/-- The whole pipeline on `/a/` (kernel evaluation of the model of `optimize` is slow on larger trees). -/
+example : optimize 2 { node := .cat [.char 0x61, .goal], flags := {} } =
+    .ok { node := .cat [.byteSeq [0x61], .goal], flags := {} } := by
+  rfl
+
+example : Utf8Text { kind := .utf8, bytes := Utf8.text [0x61, 0xE9], unicode := false } [0x61, 0xE9] :=
+  ⟨rfl, rfl, by decide⟩
+
 end Regress.C03
 
 #print axioms Regress.C03.decat_preserves
@@ -197,6 +302,10 @@ end Regress.C03
 #print axioms Regress.C03.simplify_brackets_preserves
 #print axioms Regress.C03.promote_1char_loops_preserves
 #print axioms Regress.C03.unroll_loops_preserves
+#print axioms Regress.C03.form_literal_bytes_preserves
+#print axioms Regress.C03.optimize_preserves
+#print axioms Regress.C03.optimize_same_attempt
+#print axioms Regress.C03.optimize_same_match
 #print axioms Regress.C03.run_to_fixpoint_preserves
 #print axioms Regress.C03.loop_budget_irrelevant
 #print axioms Regress.C03.sem_pos_le_len
